@@ -118,9 +118,8 @@ func (i *importedString) Equals(other Value) bool {
 func (i *importedString) StrictEquals(other Value) bool {
 	switch otherStr := other.(type) {
 	case asciiString:
-		if i.u != nil {
-			return false
-		}
+		// No need to look at (or wait for) the lazily computed i.u: an ASCII string can only be byte-equal to i.s if i.s is ASCII too.
+		// (Reading i.u here without ensureScanned() was a data race with a concurrent first scan in another Runtime.)
 		return i.s == string(otherStr)
 	case unicodeString:
 		i.ensureScanned()
